@@ -1,22 +1,36 @@
-(* C08 — decoding INTO a value that is already in use, and the loop of the Raft FSM that does so.
+(* C08 — decoding INTO a value that is already in use, for both codecs, and the loop of the Raft FSM that does so.
+
+   Rules found by experiment on the real libraries (ugorji/go/codec v1.2.6 msgpack with the default handle: no
+   MapValueReset, no SliceElementReset, no InterfaceReset; encoding/json of go1.23) and compared with them at every run by
+   the decode-onto stream of the api harness (every record type, both codecs):
+     struct   both: every key of the wire is decoded into its field, on top of what the field holds; a field whose key is
+              absent is NOT touched (and a field with `omitempty` is absent whenever the sender's value is empty);
+     map      both: the decoded entries are put into the existing map, all other keys stay: the maps are MERGED; a nil
+              map on the wire (msgpack nil, JSON null) resets the destination. Value of a key that exists already:
+              ugorji decodes on top of the old value (also through a pointer; a nil wire value makes the entry the zero
+              value, i.e. a nil pointer), encoding/json into a new zero value;
+     slice    both: the length becomes the wire's length; element i is decoded on top of the old element i when there is
+              one (a nil slice on the wire resets). Not modelled: both libraries keep the backing array, so elements
+              between an earlier, longer length and the capacity can show through when the slice grows again;
+     pointer  both: a non-nil wire value is decoded on top of the pointee when the pointer is set (the pointer is kept),
+              into a new value otherwise. Nil on the wire: ugorji leaves a set pointer set and zeroes its pointee,
+              encoding/json sets the pointer to nil;
+     bare interface (multiaddr.Multiaddr): no decoder (S19) - except that encoding/json, finding the destination
+              interface already holding a pointer, decodes into that pointee (the address unmarshals itself);
+     leaf     numbers, strings, booleans, byte strings and the types with their own unmarshalers (time, CID, peer ID,
+              address wrapper) are overwritten. (JSON null on a number / string / boolean would be a no-op: the encoders
+              never write it.)
+   The empty collection is the nil one (what the constructors and decoders of the code base produce): a non-nil empty
+   map on the wire would leave the old entries in place; not representable here, not generated.
 
    go-libp2p-raft fsm.go FSM.Apply keeps ONE consensus.Op value for its whole life and runs, for every committed log
-   entry,  decodeOp(entry, fsm.op) ; fsm.op.ApplyTo(fsm.state).  decodeOp is ugorji's msgpack decoder
-   (codec.go: default MsgpackHandle, ErrorIfNoField) decoding into the EXISTING *LogOp. What that decoder does with a
-   value that already has content (ugorji/go/codec v1.2.6, default handle: no MapValueReset, no SliceElementReset,
-   no InterfaceReset), as observed on the real library by the harness:
-     struct   every key of the wire is decoded into its field, on top of what the field holds; a field whose key is
-              absent is NOT touched (and every field with `omitempty` is absent whenever the sender's value is empty);
-     map      entries are decoded into the existing map: keys of the wire are set (the value decoded on top of the
-              value the key had), all other keys stay: the maps are MERGED;
-     slice    the length becomes the wire's length; element i is decoded on top of the old element i (when there is one);
-     pointer  a non-nil wire value is decoded on top of the pointee when the pointer is set (the pointer itself is kept),
-              into a new value otherwise; a nil wire value leaves a set pointer set, its pointee zeroed;
-     leaf     numbers, strings, booleans, byte strings and the types with their own unmarshalers (time, CID, peer ID,
-              address wrapper) are overwritten.
-   consensus/raft/log_op.go LogOp.ApplyTo takes the decoded pin out of the op and sets  op.Cid = nil  before using it,
-   so the next entry finds a nil pointer and is decoded into a fresh Pin. [apply_to] has that reset as written
-   ([reset] = true); [reset] = false is the same function without the assignment, kept to show what the assignment is for.
+   entry,  decodeOp(entry, fsm.op) ; fsm.op.ApplyTo(fsm.state);  decodeOp is the msgpack decoder decoding into the
+   EXISTING *LogOp. consensus/raft/log_op.go LogOp.ApplyTo takes the decoded pin out of the op and sets  op.Cid = nil
+   before using it, so the next entry finds a nil pointer and is decoded into a fresh Pin. [apply_to] has that reset as
+   written ([reset] = true); [reset] = false is the same function without the assignment, kept to show what it is for.
+
+   [stream_decode]: the loops `for { var x T; dec.Decode(&x); use(x) }` of state/dsstate State.Unmarshal (msgpack) and
+   cmdutils importState (JSON), with the declaration inside the loop as written ([reuse] = false) or hoisted out of it.
    Definitions only. *)
 From V Require Import Base.Common Base.C08_Str Base.C08_Schema Gen.C08Tags Model.C08_Codec Model.C08_Query Model.C08_Status Model.C08_Fmap.
 Open Scope string_scope.
@@ -44,9 +58,10 @@ Fixpoint zero_full (fuel : nat) (t : ty) {struct fuel} : val :=
 (* Go map semantics on the canonical (key-sorted) representation: the decoded entries win, the other old entries stay.
    An empty (nil) old map simply becomes the decoded entries, in the order of the wire. *)
 Definition map_merge (old new : list (string * val)) : list (string * val) :=
-  match old with
-  | [] => new
-  | _ => ksort (new ++ filter (fun kv => match slookup (fst kv) new with Some _ => false | None => true end) old)
+  match old, new with
+  | [], _ => new
+  | _, [] => []     (* the empty collection is the nil one: written as nil / null, which resets the destination *)
+  | _, _ => ksort (new ++ filter (fun kv => match slookup (fst kv) new with Some _ => false | None => true end) old)
   end.
 
 Definition nth_prev (pl : list val) (z : val) : val * list val :=
@@ -71,13 +86,19 @@ Fixpoint dec_onto (prev : val) (t : ty) (w : wire) {struct w} : result val :=
                 match m with
                 | [] => Ok []
                 | (k, x) :: r =>
-                    rbind (dec_onto (match slookup k pm with Some p0 => p0 | None => zero_val t' end) t' x)
+                    (* ugorji decodes the value on top of the value the key had - unless the wire value is nil, which
+                       sets the entry to the zero value (a nil pointer) -; encoding/json into a new zero value *)
+                    rbind (dec_onto (match c, x, slookup k pm with
+                                     | Msgpack, WNil, _ => zero_val t'
+                                     | Msgpack, _, Some p0 => p0
+                                     | _, _, _ => zero_val t' end) t' x)
                           (fun v => rbind (go r) (fun vs => Ok ((k, v) :: vs)))
                 end) m) (fun vs => Ok (VMap (map_merge pm vs)))
   | TPtr t', WNil =>
-      match prev with
-      | VPtr (Some _) => Ok (VPtr (Some (zero_full 4 t')))
-      | _ => Ok (VPtr None)
+      (* ugorji keeps a set pointer and zeroes what it points to; encoding/json sets the pointer to nil *)
+      match c, prev with
+      | Msgpack, VPtr (Some _) => Ok (VPtr (Some (zero_full 4 t')))
+      | _, _ => Ok (VPtr None)
       end
   | TPtr t', WSome w' =>
       rbind (dec_onto (match prev with VPtr (Some x) => x | _ => zero_val t' end) t' w') (fun v => Ok (VPtr (Some v)))
@@ -100,6 +121,12 @@ Fixpoint dec_onto (prev : val) (t : ty) (w : wire) {struct w} : result val :=
                                   end) m in
                         rbind here (fun v => rbind (go fr (snd (nth_prev pvs (zero_val (f_ty f))))) (fun vs => Ok (v :: vs)))
                     end) fs pvs) (fun vs => Ok (VRec vs))
+      end
+  | TMaddrIface, WAddr a =>
+      (* a bare interface has no decoder, unless (encoding/json) it already holds a pointer to a value that can unmarshal itself *)
+      match c, prev with
+      | Json, VAddr (Some _) => Ok (VAddr (Some a))
+      | _, _ => Err
       end
   | _, _ => dec c sch t w
   end.
@@ -244,3 +271,26 @@ Definition pin_onto (a b : pin) : option (result pin) :=
       end
   | _, _ => None
   end.
+
+(* ---- streams of records: for { var x T; dec.Decode(&x); use(x) } ---- *)
+Section Stream.
+Variable c : codec.
+Variable sch : schema.
+Variable t : ty.
+
+Fixpoint stream_encode (vs : list val) : result (list wire) :=
+  match vs with
+  | [] => Ok []
+  | v :: r => rbind (enc c sch t v) (fun w => rbind (stream_encode r) (fun ws => Ok (w :: ws)))
+  end.
+
+(* [reuse] = false: the destination is declared inside the loop (a fresh zero value per record), as the code has it;
+   [reuse] = true: one destination for the whole stream; what is handed out is the destination's content after each record *)
+Fixpoint stream_decode (reuse : bool) (dest : val) (ws : list wire) : result (list val) :=
+  match ws with
+  | [] => Ok []
+  | w :: r =>
+      rbind (dec_onto c sch (if reuse then dest else zero_val t) t w)
+            (fun v => rbind (stream_decode reuse v r) (fun vs => Ok (v :: vs)))
+  end.
+End Stream.
